@@ -16,7 +16,42 @@ Record SInv (s : st) : Prop := mkSInv {
   sv_nocls : forall i, scope_is_class s i = false;
   sv_delayed : scope_dict s delayed_id = [];
   sv_cd : in_cd s = 0;
-  sv_raw : forall i k e, In (k, e) (scope_dict s i) -> e = Plain }.
+  sv_raw : forall i k e, In (k, e) (scope_dict s i) -> e = Plain;
+  sv_uniq : NoDup (map fst (scopes s)) }.
+
+Lemma NoDup_app_snoc : forall A (l : list A) x, NoDup l -> ~ In x l -> NoDup (l ++ [x]).
+Proof.
+  induction l as [|y l IH]; intros x H Hn; cbn. { constructor. intros []. constructor. }
+  inversion H as [|? ? Hy Hl]; subst. constructor.
+  - intro Hin. apply in_app_iff in Hin as [Hin|[Hin|[]]]. contradiction. subst. apply Hn. left. reflexivity.
+  - apply IH; auto. intro Hin. apply Hn. right. exact Hin.
+Qed.
+(* with unique ids, a listed scope is the one get_scope finds *)
+Lemma get_scope_In : forall l j v, NoDup (map fst l) -> In (j, v) l -> get_scope l j = v.
+Proof.
+  induction l as [|[i w] l IH]; intros j v Hnd Hin. contradiction.
+  cbn [map fst] in Hnd. inversion Hnd as [|? ? Hni Hnd']; subst. cbn [get_scope]. destruct Hin as [Hin|Hin].
+  - injection Hin as -> ->. rewrite Nat.eqb_refl. reflexivity.
+  - destruct (Nat.eqb j i) eqn:E. apply Nat.eqb_eq in E. subst j. exfalso. apply Hni. apply in_map_iff. exists (i, v). auto.
+    apply IH; auto.
+Qed.
+Lemma set_scope_fst : forall l i v, In i (map fst l) -> map fst (set_scope l i v) = map fst l.
+Proof.
+  induction l as [|[j w] l IH]; intros i v Hin. contradiction. cbn [set_scope]. destruct (Nat.eqb i j) eqn:E. reflexivity.
+  cbn [map fst]. f_equal. apply IH. destruct Hin as [Hin|Hin]; auto. cbn in Hin. subst j. rewrite Nat.eqb_refl in E. discriminate.
+Qed.
+Lemma set_scope_fst_new : forall l i v, ~ In i (map fst l) -> map fst (set_scope l i v) = map fst l ++ [i].
+Proof.
+  induction l as [|[j w] l IH]; intros i v Hin. reflexivity. cbn [set_scope]. destruct (Nat.eqb i j) eqn:E.
+  apply Nat.eqb_eq in E. subst j. exfalso. apply Hin. left. reflexivity.
+  cbn [map fst app]. f_equal. apply IH. intro H. apply Hin. right. exact H.
+Qed.
+Lemma set_scope_uniq : forall l i v, NoDup (map fst l) -> NoDup (map fst (set_scope l i v)).
+Proof.
+  intros l i v H. destruct (in_dec Nat.eq_dec i (map fst l)) as [Hin|Hin].
+  - rewrite set_scope_fst by exact Hin. exact H.
+  - rewrite set_scope_fst_new by exact Hin. apply NoDup_app_snoc; auto.
+Qed.
 
 (* SInv does not look at missing / deferred / in_fd / lineno / unused *)
 Lemma SInv_with_missing : forall s m, SInv s -> SInv (with_missing s m).
@@ -156,6 +191,7 @@ Proof.
   - congruence.
   - intros j k e. rewrite scope_dict_set_in_scope. destruct (Nat.eqb i j); [|apply sv_raw0].
     intro Hin. eapply dict_set_In_plain; [|exact Hin]. intros k0 e0. apply sv_raw0.
+  - unfold set_in_scope. destruct (get_scope (scopes s) i). cbn [scopes with_scopes]. apply set_scope_uniq. exact sv_uniq0.
 Qed.
 
 (* a new non-class scope whose content is harmless *)
@@ -197,6 +233,8 @@ Proof.
     apply Nat.eqb_eq in E2. unfold delayed_id in E2. lia.
   - congruence.
   - intros j k e. rewrite Hsd by assumption. destruct (Nat.eqb j (next_id s)). apply Hp. apply sv_raw0.
+  - unfold new_scope in E. injection E as <-. cbn. rewrite map_app. cbn. apply NoDup_app_snoc; auto.
+    intro Hin. apply in_map_iff in Hin as ([j w] & Ej & Hin). cbn in Ej. subst j. apply sv_fresh0 in Hin. lia.
 Qed.
 
 
@@ -237,4 +275,6 @@ Proof.
     apply Nat.eqb_eq in E2. unfold delayed_id in E2. lia.
   - congruence.
   - intros j key e. rewrite Hsd by assumption. destruct (Nat.eqb j (next_id s)). apply Hp. apply sv_raw0.
+  - unfold new_scope in E. injection E as <-. cbn. rewrite map_app. cbn. apply NoDup_app_snoc; auto.
+    intro Hin. apply in_map_iff in Hin as ([j w] & Ej & Hin). cbn in Ej. subst j. apply sv_fresh0 in Hin. lia.
 Qed.
